@@ -23,7 +23,7 @@ Proof. revert i. induction l as [|h t IH]; intros [|i]; cbn; auto. Qed.
 Definition inv (s : state) : Prop :=
   forall j, mux s = Some j -> exists p, nth_error (threads s) j = Some p /\ holds_lock p = true.
 
-Lemma inv_init scr prog : inv (init scr prog).
+Lemma inv_init P scr prog : inv (init P scr prog).
 Proof. intros j H. cbn in H. discriminate. Qed.
 
 Lemma signal_nonblocking cap n : signal false cap n <> None.
@@ -45,7 +45,11 @@ Proof.
   destruct p; cbn [holds_lock] in Hheld.
   - (* SubSignal *) destruct (signal _ _ _); [|discriminate]. inv_some. intros j Hj. cbn in Hj |- *.
     destruct (Nat.eq_dec j i) as [E|E]; [specialize (Hheld _ Hj E); discriminate | apply Hother; assumption].
-  - (* SubLock *) destruct (mux s) eqn:Hm; [discriminate|]. inv_some. intros j Hj. cbn in Hj. discriminate.
+  - (* SubLock *) destruct (mux s) eqn:Hm; [discriminate|].
+    destruct (negb ((id =? 0) || mem_id id (subs s)) && subscribe_signals_after P); inv_some; intros j Hj; cbn in Hj |- *.
+    + injection Hj as <-. eexists. split; [eapply nth_error_upd_same; exact Hi | reflexivity].
+    + discriminate.
+  - (* SubSignalHeld *) destruct (signal _ _ _); [|discriminate]. inv_some. intros j Hj. cbn in Hj. discriminate.
   - (* ForgetLock *) destruct (mux s) eqn:Hm; [discriminate|]. inv_some. intros j Hj. cbn in Hj |- *. injection Hj as <-.
     eexists. split; [eapply nth_error_upd_same; exact Hi|]. destruct (remove_id _ _); reflexivity.
   - (* ForgetPause *) destruct (signal _ _ _); [|discriminate]. inv_some. intros j Hj. cbn in Hj |- *.
@@ -69,7 +73,7 @@ Qed.
 
 Lemma step_loop_keeps P s a s' : step_loop P s a = Some s' -> mux s' = mux s /\ threads s' = threads s.
 Proof.
-  unfold step_loop, set_loop. intros H.
+  unfold step_loop, set_resumed, set_loop. intros H.
   destruct (loop s), a; try discriminate;
     repeat match type of H with
            | context [match ?x with _ => _ end] => destruct x; try discriminate
@@ -90,10 +94,11 @@ Proof. intros H0 Hr. induction Hr; [exact H0 | eapply inv_step; eassumption]. Qe
 Lemma holder_can_step P s j p :
   nonblocking P = true -> nth_error (threads s) j = Some p -> holds_lock p = true -> can_step_api P s j = true.
 Proof.
-  intros Hnb Hj Hh. unfold nonblocking in Hnb. apply andb_true_iff in Hnb. destruct Hnb as [Hnb _].
-  apply andb_true_iff in Hnb. destruct Hnb as [Hp _]. apply negb_true_iff in Hp.
+  intros Hnb Hj Hh. unfold nonblocking in Hnb. apply andb_true_iff in Hnb. destruct Hnb as [Hnb Hsb].
+  apply andb_true_iff in Hnb. destruct Hnb as [Hp _]. apply negb_true_iff in Hp, Hsb.
   unfold can_step_api, step_api. rewrite Hj. destruct p; cbn in Hh; try discriminate; try reflexivity;
-    rewrite Hp; (destruct (signal false (cap_pause P) (pausech s)) eqn:E; [reflexivity | exfalso; eapply signal_nonblocking; exact E]).
+    try (rewrite Hp; (destruct (signal false (cap_pause P) (pausech s)) eqn:E; [reflexivity | exfalso; eapply signal_nonblocking; exact E])).
+  rewrite Hsb. destruct (signal false (cap_resume P) (resumech s)) eqn:E; [reflexivity | exfalso; eapply signal_nonblocking; exact E].
 Qed.
 
 (* every unfinished call can step, or waits for subMux and the holder can step *)
@@ -113,9 +118,12 @@ Proof.
       + right. exists j. repeat split; try assumption. eapply holder_can_step; eassumption.
     - left. unfold can_step_api. rewrite (H1 eq_refl). reflexivity. }
   destruct p; try congruence.
-  - left. unfold can_step_api, step_api. rewrite Hi, Hsb.
+  - (* SubSignal *) left. unfold can_step_api, step_api. rewrite Hi, Hsb.
     destruct (signal false _ _) eqn:E; [reflexivity | exfalso; eapply signal_nonblocking; exact E].
-  - eapply Hwait. intros Hm. unfold step_api. rewrite Hi, Hm. reflexivity.
+  - (* SubLock *)
+    destruct (negb ((id =? 0) || mem_id id (subs s)) && subscribe_signals_after P) eqn:Eb;
+      eapply Hwait; intros Hm; unfold step_api; rewrite Hi, Hm, Eb; reflexivity.
+  - (* SubSignalHeld *) left. eapply holder_can_step; [exact Hnb | exact Hi | reflexivity].
   - eapply Hwait. intros Hm. unfold step_api. rewrite Hi, Hm. reflexivity.
   - left. eapply holder_can_step; [exact Hnb | exact Hi | reflexivity].
   - left. eapply holder_can_step; [exact Hnb | exact Hi | reflexivity].
@@ -165,4 +173,256 @@ Proof.
   destruct Hex as [i [p [Hi Hp]]].
   destruct (no_call_blocks P s Hnb Hinv i p Hi Hp) as [H|[j [_ [_ H]]]];
     apply can_step_enabled in H; destruct (enabled P s); [inversion H | reflexivity | inversion H | reflexivity].
+Qed.
+
+(* ---------------------------------------------------------------------------------------------------------------
+   No lost resume.  With (1) the resume signal of Subscribe sent after the registration, under subMux, and (2) a loop
+   that lets a consumed resume signal win over pause signals until it has published, the publish loop is never parked
+   while the client holds a subscription and every Subscribe / ForgetSubscription call has returned - for any number
+   of such calls, any schedule, any publish script without publish errors (an error pauses the loop on purpose until
+   the reconnect monitor resumes it). *)
+
+Definition api_pc (p : pc) : bool :=
+  match p with SubLock _ | SubSignalHeld | ForgetLock _ | ForgetPause | ForgetUnlock | Done => true | _ => false end.
+
+Definition api_op (o : op) : bool := match o with OpSubscribe _ | OpForget _ => true | _ => false end.
+
+Definition error_free (scr : list pub_outcome) : bool :=
+  forallb (fun o => match o with PErr => false | _ => true end) scr.
+
+Definition fixed_protocol (P : params) : bool :=
+  nonblocking P && subscribe_signals_after P && resume_wins P && (1 <=? cap_resume P).
+
+Lemma fixed_protocol_spec P : fixed_protocol P = true ->
+  nonblocking P = true /\ subscribe_signals_after P = true /\ resume_wins P = true /\ 1 <= cap_resume P /\
+  pause_blocks P = false /\ subscribe_blocks P = false.
+Proof.
+  unfold fixed_protocol. intros H.
+  apply andb_true_iff in H. destruct H as [H Hcap]. apply andb_true_iff in H. destruct H as [H Hrw].
+  apply andb_true_iff in H. destruct H as [Hnb Hsa]. apply Nat.leb_le in Hcap.
+  pose proof Hnb as Hnb'. unfold nonblocking in Hnb'.
+  apply andb_true_iff in Hnb'. destruct Hnb' as [H1 Hsb]. apply andb_true_iff in H1. destruct H1 as [Hpb _].
+  apply negb_true_iff in Hsb, Hpb. repeat split; assumption.
+Qed.
+
+Record J (s : state) : Prop := {
+  J_api : forall i p, nth_error (threads s) i = Some p -> api_pc p = true;
+  J_scr : error_free (script s) = true;
+  J_nowp : loop s <> LWantPause;
+  J_holder : forall j p, nth_error (threads s) j = Some p -> holds_lock p = true -> mux s = Some j;
+  J_paused : loop s = LPaused -> resumed s = false;
+  J_fp : forall i, nth_error (threads s) i = Some ForgetPause -> subs s = [];
+  J_live : subs s <> [] -> (forall i, nth_error (threads s) i <> Some SubSignalHeld) ->
+           0 < resumech s \/ resumed s = true \/ (pausech s = 0 /\ loop s <> LPaused)
+}.
+
+Lemma nth_upd_cases {A} (l : list A) i x j q p :
+  nth_error l i = Some p -> nth_error (upd l i x) j = Some q ->
+  (j = i /\ q = x) \/ (j <> i /\ nth_error l j = Some q).
+Proof.
+  intros Hi Hj. destruct (Nat.eq_dec j i) as [->|Hne].
+  - left. rewrite (nth_error_upd_same l i x p Hi) in Hj. injection Hj as <-. split; reflexivity.
+  - right. rewrite nth_error_upd_other in Hj by congruence. split; assumption.
+Qed.
+
+Lemma J_init P scr prog :
+  fixed_protocol P = true -> forallb api_op prog = true -> error_free scr = true -> J (init P scr prog).
+Proof.
+  intros HP Hprog Hscr. destruct (fixed_protocol_spec P HP) as [_ [H1 _]].
+  assert (Hth : forall i p, nth_error (map (start P) prog) i = Some p -> exists id, p = SubLock id \/ p = ForgetLock id).
+  { intros i p Hi. apply nth_error_In in Hi. apply in_map_iff in Hi. destruct Hi as [o [Ho Hin]].
+    rewrite forallb_forall in Hprog. specialize (Hprog _ Hin). destruct o; try discriminate; cbn in Ho.
+    - rewrite H1 in Ho. eexists. left. symmetry. exact Ho.
+    - eexists. right. symmetry. exact Ho. }
+  constructor; cbn.
+  - intros i p Hi. destruct (Hth _ _ Hi) as [id [-> | ->]]; reflexivity.
+  - exact Hscr.
+  - discriminate.
+  - intros j p Hj Hh. destruct (Hth _ _ Hj) as [id [-> | ->]]; discriminate.
+  - discriminate.
+  - intros i Hi. destruct (Hth _ _ Hi) as [id [E | E]]; discriminate.
+  - intros Hne. congruence.
+Qed.
+
+Lemma remove_id_nil id l : l = [] -> remove_id id l = [].
+Proof. intros ->. reflexivity. Qed.
+
+Lemma signal_pos cap n r : 1 <= cap -> signal false cap n = Some r -> 0 < r.
+Proof.
+  unfold signal. intros Hc. destruct (n <? cap) eqn:E; intros H; injection H as <-; [lia|].
+  apply Nat.ltb_ge in E. lia.
+Qed.
+
+Lemma J_step_api P s i s' : fixed_protocol P = true -> J s -> step_api P s i = Some s' -> J s'.
+Proof.
+  intros HP HJ Hs. destruct (fixed_protocol_spec P HP) as [Hnb [Hsa [Hrw [Hcap [Hpb Hsb]]]]].
+  destruct HJ as [Ha Hscr Hnwp Hh Hpa Hfp Hlv].
+  unfold step_api in Hs. destruct (nth_error (threads s) i) as [p|] eqn:Hi; [|discriminate].
+  pose proof (Ha _ _ Hi) as Hapi.
+  (* no thread is inside Subscribe's signalling section unless it holds the lock *)
+  assert (Hnossh_free : mux s = None -> forall j, nth_error (threads s) j <> Some SubSignalHeld).
+  { intros Hm j Hj. specialize (Hh _ _ Hj eq_refl). congruence. }
+  assert (Hnossh_held : mux s = Some i -> p <> SubSignalHeld -> forall j, nth_error (threads s) j <> Some SubSignalHeld).
+  { intros Hm Hp j Hj. pose proof (Hh _ _ Hj eq_refl) as Hm'. rewrite Hm in Hm'. injection Hm' as <-. congruence. }
+  destruct p; cbn in Hapi; try discriminate.
+  - (* SubLock *)
+    destruct (mux s) eqn:Hm; [discriminate|].
+    destruct (negb ((id =? 0) || mem_id id (subs s))) eqn:Eacc; rewrite Hsa in Hs; cbn [andb] in Hs; inv_some.
+    + (* accepted: registered, now holds the lock and signals *)
+      constructor; cbn.
+      * intros j q Hj. destruct (nth_upd_cases _ _ _ _ _ _ Hi Hj) as [[-> ->]|[_ Hq]]; [reflexivity | eapply Ha; exact Hq].
+      * exact Hscr.
+      * exact Hnwp.
+      * intros j q Hj Hq. destruct (nth_upd_cases _ _ _ _ _ _ Hi Hj) as [[-> ->]|[_ Hq']]; [reflexivity|].
+        specialize (Hh _ _ Hq' Hq). congruence.
+      * exact Hpa.
+      * intros j Hj. destruct (nth_upd_cases _ _ _ _ _ _ Hi Hj) as [[_ E]|[_ Hq']]; [discriminate|].
+        specialize (Hh _ _ Hq' eq_refl). congruence.
+      * intros _ Hno. exfalso. apply (Hno i). eapply nth_error_upd_same. exact Hi.
+    + (* rejected *)
+      constructor; cbn.
+      * intros j q Hj. destruct (nth_upd_cases _ _ _ _ _ _ Hi Hj) as [[-> ->]|[_ Hq]]; [reflexivity | eapply Ha; exact Hq].
+      * exact Hscr.
+      * exact Hnwp.
+      * intros j q Hj Hq. destruct (nth_upd_cases _ _ _ _ _ _ Hi Hj) as [[-> ->]|[_ Hq']]; [discriminate|].
+        specialize (Hh _ _ Hq' Hq). congruence.
+      * exact Hpa.
+      * intros j Hj. destruct (nth_upd_cases _ _ _ _ _ _ Hi Hj) as [[_ E]|[_ Hq']]; [discriminate|].
+        specialize (Hh _ _ Hq' eq_refl). congruence.
+      * intros Hne _. apply Hlv; [exact Hne | apply Hnossh_free; reflexivity].
+  - (* SubSignalHeld *)
+    rewrite Hsb in Hs. destruct (signal false (cap_resume P) (resumech s)) as [r|] eqn:Esig; [|discriminate]. inv_some.
+    pose proof (Hh _ _ Hi eq_refl) as Hm.
+    constructor; cbn.
+    + intros j q Hj. destruct (nth_upd_cases _ _ _ _ _ _ Hi Hj) as [[-> ->]|[_ Hq]]; [reflexivity | eapply Ha; exact Hq].
+    + exact Hscr.
+    + exact Hnwp.
+    + intros j q Hj Hq. destruct (nth_upd_cases _ _ _ _ _ _ Hi Hj) as [[-> ->]|[Hne Hq']]; [discriminate|].
+      specialize (Hh _ _ Hq' Hq). congruence.
+    + exact Hpa.
+    + intros j Hj. destruct (nth_upd_cases _ _ _ _ _ _ Hi Hj) as [[_ E]|[Hne Hq']]; [discriminate|].
+      specialize (Hh _ _ Hq' eq_refl). congruence.
+    + intros _ _. left. eapply signal_pos; eassumption.
+  - (* ForgetLock *)
+    destruct (mux s) eqn:Hm; [discriminate|]. inv_some.
+    constructor; cbn.
+    + intros j q Hj. destruct (nth_upd_cases _ _ _ _ _ _ Hi Hj) as [[-> ->]|[_ Hq]]; [destruct (remove_id id (subs s)); reflexivity | eapply Ha; exact Hq].
+    + exact Hscr.
+    + exact Hnwp.
+    + intros j q Hj Hq. destruct (nth_upd_cases _ _ _ _ _ _ Hi Hj) as [[-> ->]|[_ Hq']]; [reflexivity|].
+      specialize (Hh _ _ Hq' Hq). congruence.
+    + exact Hpa.
+    + intros j Hj. destruct (nth_upd_cases _ _ _ _ _ _ Hi Hj) as [[_ E]|[_ Hq']].
+      * destruct (remove_id id (subs s)); [reflexivity | discriminate].
+      * specialize (Hh _ _ Hq' eq_refl). congruence.
+    + intros Hne Hno. apply Hlv; [|apply Hnossh_free; reflexivity].
+      intros E. apply Hne. apply remove_id_nil. exact E.
+  - (* ForgetPause *)
+    rewrite Hpb in Hs. destruct (signal false (cap_pause P) (pausech s)) as [n|] eqn:Esig; [|discriminate]. inv_some.
+    pose proof (Hh _ _ Hi eq_refl) as Hm. pose proof (Hfp _ Hi) as Hsubs.
+    constructor; cbn.
+    + intros j q Hj. destruct (nth_upd_cases _ _ _ _ _ _ Hi Hj) as [[-> ->]|[_ Hq]]; [reflexivity | eapply Ha; exact Hq].
+    + exact Hscr.
+    + exact Hnwp.
+    + intros j q Hj Hq. destruct (nth_upd_cases _ _ _ _ _ _ Hi Hj) as [[-> ->]|[Hne Hq']]; [exact Hm|].
+      specialize (Hh _ _ Hq' Hq). congruence.
+    + exact Hpa.
+    + intros j Hj. exact Hsubs.
+    + intros Hne. congruence.
+  - (* ForgetUnlock *)
+    inv_some. pose proof (Hh _ _ Hi eq_refl) as Hm.
+    constructor; cbn.
+    + intros j q Hj. destruct (nth_upd_cases _ _ _ _ _ _ Hi Hj) as [[-> ->]|[_ Hq]]; [reflexivity | eapply Ha; exact Hq].
+    + exact Hscr.
+    + exact Hnwp.
+    + intros j q Hj Hq. destruct (nth_upd_cases _ _ _ _ _ _ Hi Hj) as [[-> ->]|[Hne Hq']]; [discriminate|].
+      specialize (Hh _ _ Hq' Hq). congruence.
+    + exact Hpa.
+    + intros j Hj. destruct (nth_upd_cases _ _ _ _ _ _ Hi Hj) as [[_ E]|[Hne Hq']]; [discriminate|].
+      specialize (Hh _ _ Hq' eq_refl). congruence.
+    + intros Hne _. apply Hlv; [exact Hne | apply Hnossh_held; [exact Hm | discriminate]].
+Qed.
+
+Lemma error_free_tail o scr : error_free (o :: scr) = true -> o <> PErr /\ error_free scr = true.
+Proof. cbn. intros H. apply andb_true_iff in H. destruct H as [H1 H2]. split; [destruct o; congruence | exact H2]. Qed.
+
+Lemma J_step_loop P s a s' : fixed_protocol P = true -> J s -> step_loop P s a = Some s' -> J s'.
+Proof.
+  intros HP HJ Hs. destruct (fixed_protocol_spec P HP) as [Hnb [Hsa [Hrw [Hcap [Hpb Hsb]]]]].
+  destruct HJ as [Ha Hscr Hnwp Hh Hpa Hfp Hlv].
+  unfold step_loop in Hs.
+  destruct (loop s) eqn:El, a; try discriminate.
+  - (* LTop, TakeResume *)
+    destruct (resumech s) as [|r] eqn:Er; [discriminate|]. inv_some. rewrite Hrw.
+    constructor; cbn; try assumption; try discriminate. intros _ _. right. left. reflexivity.
+  - (* LTop, TakePause *)
+    destruct (pausech s) as [|pp] eqn:Ep; [discriminate|]. inv_some.
+    constructor; cbn; try assumption.
+    + destruct (resumed s); discriminate.
+    + destruct (resumed s) eqn:Ers; [discriminate | intros _; reflexivity].
+    + intros Hne Hno. destruct (Hlv Hne Hno) as [H1|[H1|[H1 _]]].
+      * left. exact H1.
+      * right. left. exact H1.
+      * try rewrite Ep in H1; discriminate.
+  - (* LTop, Default *)
+    destruct (pausech s) eqn:Ep; [|discriminate]. destruct (resumech s) eqn:Er; [|discriminate].
+    destruct (mux s) eqn:Em; [discriminate|]. inv_some.
+    constructor; cbn; try rewrite Em; try assumption; try discriminate. intros _ _. right. right. split; [reflexivity | discriminate].
+  - (* LPaused, TakeResume *)
+    destruct (resumech s) as [|r] eqn:Er; [discriminate|]. inv_some. rewrite Hrw.
+    constructor; cbn; try assumption; try discriminate. intros _ _. right. left. reflexivity.
+  - (* LPaused, TakePause *)
+    destruct (pausech s) as [|pp] eqn:Ep; [discriminate|]. inv_some.
+    constructor; cbn; try assumption; try discriminate.
+    intros Hne Hno. destruct (Hlv Hne Hno) as [H1|[H1|[_ H1]]].
+    + left. exact H1.
+    + right. left. exact H1.
+    + congruence.
+  - (* LInPublish, Answer *)
+    destruct (script s) as [|o rest] eqn:Escr; [discriminate|].
+    destruct (error_free_tail _ _ Hscr) as [Ho Hrest].
+    destruct o; try congruence; inv_some; constructor; cbn; try assumption; try discriminate;
+      (intros Hne Hno; destruct (Hlv Hne Hno) as [H1|[H1|[H1 _]]];
+       [left; exact H1 | right; left; exact H1 | right; right; split; [exact H1 | discriminate]]).
+  - (* LWantLock, Handle *)
+    destruct (mux s) eqn:Em; [discriminate|]. inv_some.
+    constructor; cbn; try rewrite Em; try assumption; try discriminate.
+    intros Hne Hno. destruct (Hlv Hne Hno) as [H1|[H1|[H1 _]]];
+      [left; exact H1 | right; left; exact H1 | right; right; split; [exact H1 | discriminate]].
+  - (* LWantPause: unreachable *)
+    congruence.
+Qed.
+
+Lemma J_reachable P s0 s : fixed_protocol P = true -> J s0 -> reachable P s0 s -> J s.
+Proof.
+  intros HP H0 Hr. induction Hr as [|s a s' Hr IH Hstep]; [exact H0|].
+  destruct a as [i|la]; cbn in Hstep; [eapply J_step_api | eapply J_step_loop]; eassumption.
+Qed.
+
+Lemma api_finished_no_ssh s : api_finished s = true -> forall i, nth_error (threads s) i <> Some SubSignalHeld.
+Proof.
+  unfold api_finished. intros H i Hi. rewrite forallb_forall in H. specialize (H _ (nth_error_In _ _ Hi)). discriminate.
+Qed.
+
+Theorem no_lost_resume P scr prog s :
+  fixed_protocol P = true -> forallb api_op prog = true -> error_free scr = true ->
+  reachable P (init P scr prog) s -> loop_starved P s = false.
+Proof.
+  intros HP Hprog Hscr Hr.
+  pose proof (J_reachable P _ s HP (J_init P scr prog HP Hprog Hscr) Hr) as [Ha Hs Hnwp Hh Hpa Hfp Hlv].
+  unfold loop_starved.
+  destruct (api_finished s) eqn:Ef; [|reflexivity].
+  destruct (enabled P s) as [|a0 rest] eqn:Een; [|reflexivity].
+  destruct (subs s) as [|x t] eqn:Esub; [reflexivity|].
+  destruct (loop s) eqn:El; try reflexivity. exfalso.
+  assert (Hne : x :: t <> []) by discriminate.
+  destruct (Hlv Hne (api_finished_no_ssh s Ef)) as [H1|[H1|[_ H1]]].
+  - (* a resume signal is pending: the paused loop can take it *)
+    assert (Hin : In (ALoop TakeResume) (enabled P s)).
+    { unfold enabled. apply filter_In. split.
+      - unfold all_actions. apply in_or_app. right. cbn. left. reflexivity.
+      - cbn. unfold step_loop. rewrite El. destruct (resumech s); [lia | reflexivity]. }
+    rewrite Een in Hin. inversion Hin.
+  - rewrite (Hpa eq_refl) in H1. discriminate.
+  - congruence.
 Qed.
